@@ -14,7 +14,7 @@ MC = "model_checking"
 TECH = "explicit TLA+ specification model-checked with TLC; transition-cover replay of TLC behaviours on the real code; trace / row validation of recorded events against the specification"
 CHECKS = {
  "C02": dict(level=MC, design="5/C02",
-   text="FrameCompressor.tla (frame loop, block decision, literals decision composed with a shadow decoder) is explored exhaustively with invariants SyncNow / BeliefSound / OneLast / Structure / FreshFrame; every transition of its graph becomes an input program (content class per block, level, read fragmentation, up to 2 frames on one reused compressor) run on the real compressor; every emitted frame is decoded by ruzstd and libzstd and compared with the input; the recorded block decisions are validated against Trace_FrameCompressor. Seeded random programs over boundary lengths extend this. Exhaustive over the abstract decision graph, sampled over byte contents.",
+   text="FrameCompressor.tla (frame loop, block decision, literals decision composed with a shadow decoder) is explored exhaustively with invariants SyncNow / BeliefSound / OneLast / Structure / FreshFrame; every transition of its graph becomes an input program (content class per block, level, read fragmentation, up to 2 frames on one reused compressor) run on the real compressor; every emitted frame is decoded by ruzstd and libzstd and compared with the input; the recorded block decisions are validated against Trace_FrameCompressor. Seeded random programs over boundary lengths extend this. Exhaustive over the abstract decision graph, sampled over byte contents. The code-histogram classes of ParseClasses.tla planted in the data (long matches, spaced literals) and compressed by the built-in match finder, so that the table builder meets its accuracy-log clamps from compress_to_vec as well; both decoders.",
    note="libzstd 1.5.7 is the reference decoder; inputs sampled per content class; bounds MaxFrames=2, MaxBlocks=2/3", technique=TECH),
  "C04": dict(level=MC, design="5/C04",
    text="TLC explores the cell-level ring buffer model exhaustively (every reachable (cap, head, tail, written-set) x every operation x operand menu, chunked over-copy K=16, invariants Safe/TypeOK/Accounting/WrittenPrefix); every transition of that graph is replayed on the real RingBuffer (contents against a byte queue, len, free, position invariants); seeded random RingBuffer and DecodeBuffer operation sequences are recorded through hooks (operations and the extents the raw copies actually touched) and validated against the trace specification, so over-reads that never change contents are detected. Exhaustive within the bounds, sampled beyond them; the index arithmetic alone (RingArith.tla: extend with and without growth, drop, clear) is proved for arbitrary capacities: Apalache discharges Init => IndInv and IndInv /\\ Next => IndInv' symbolically, TLAPS proves Spec => [](IndInv /\\ Safe) (RingArithProof.tla, 44 obligations, with a deviating self-test), TLC bridges its modulo-free wrap to the % form of the code.",
@@ -35,7 +35,7 @@ CHECKS = {
    text="FrameDecoder.tla with a truncated source: every cut point at and around every structural boundary x decode/drain/streaming/slice calls, invariants NoFinishOnPrefix and ConsumedOK, every transition replayed; an exhaustive sweep of every source length of every model frame through four entry points is judged row by row by TLC with the specification's operators (TruncPropOk); MultiFrame.tla enumerates all item sequences (frames, skippable frames, truncated/garbage/invalid items) up to 2/3 items x boundary target capacities and the real decode_all / decode_all_to_vec are run on every case; every strict prefix of small real frames at property level.",
    note="13 item kinds; truncated items only at the end of the input; regenerated sizes of compressed blocks of real frames not modelled", technique=TECH),
  "C15": dict(level=MC, design="5/C02",
-   text="Same pipeline as C02: every emitted frame is walked by an independent block-level walker (magic, header fields, block types and sizes, exactly one last block at the end, nothing after it but the checksum, block count for the input length), regenerated block sizes and every match offset (<= window and <= data produced so far) are read from the decoder's block/sequence events, and the frame size is compared with input + framing overhead; invariants OneLast / Structure of FrameCompressor.tla on every validated trace. Other matcher geometries (windows that are not powers of two, matches just inside the window) behind a wrapper that reports its window only after reset.",
+   text="Same pipeline as C02: every emitted frame is walked by an independent block-level walker (magic, header fields, block types and sizes, exactly one last block at the end, nothing after it but the checksum, block count for the input length), regenerated block sizes and every match offset (<= window and <= data produced so far) are read from the decoder's block/sequence events, and the frame size is compared with input + framing overhead; invariants OneLast / Structure of FrameCompressor.tla on every validated trace. Other matcher geometries (windows that are not powers of two, matches just inside the window) behind a wrapper that reports its window only after reset. The code-histogram classes of ParseClasses.tla planted in the data (long matches, spaced literals) and compressed by the built-in match finder, so that the table builder meets its accuracy-log clamps from compress_to_vec as well; both decoders.",
    note="offsets and regenerated sizes come from decoder events (hook H3), the decode result is independently confirmed by libzstd", technique=TECH),
 
  "C01": dict(level=MC, design="5/C01",
